@@ -89,3 +89,9 @@ claim("C18",
   "Histories of create / delete / block-senders among 4 accounts with address, name, unknown and malformed targets, crafted From strings on delete, names registered and transferred mid-history, block times from 1 microsecond to hours. After every step AllNotificationsByAddress equals the model inbox of every account (full records), AllNotifications equals the union, Notification finds each entry, blocked senders are refused. The phantom-entry defect (block entries listed as notifications) is fixed in /repo (416464ce).",
   "identity of a notification is (recipient, sender, block-time microseconds); name resolution is modelled from the rns Names records; fork mode without ante handler.",
   "DESIGN.md section 4 C18")
+
+claim("C10",
+  "model-based stateful property test (rapid state machine): reference tree with explicit account identity compared with the complete Files store after every message",
+  "Histories of provision / post / re-post / delete / change-owner / add-remove-reset viewers and editors by owner, editor, viewer and stranger accounts, with string fields taken from existing entries or crafted (separators moved across the address/owner boundary, prefixes, blanks, near-identical ids, non-JSON access lists, short key lists). Authorisation is decided semantically by the model (account hash equality; editor id present in the parent's editor map); an unauthorised message must fail, an authorised one may fail without effect or succeed with exactly the modelled effect; after every step all records and all fields (access lists as parsed maps) must equal the model.",
+  "sha256 collisions are not considered; fork mode without ante handler.",
+  "DESIGN.md section 4 C10")
